@@ -6,7 +6,7 @@ SPEC = {
     "lean_modules": ["PallasVerif.Props.C02"],
     "required_theorems": ["dec_total", "dec_total_single", "call_safe", "pos_le_len", "decode_list_with_total", "decode_top_total", "arith_sites_in_range",
                           "orig_bool_panics", "orig_word_panics", "orig_bits8_zero_panics"],
-    "streams": [{"name": "flatdec", "quick": 2000, "thorough": 100000}],
+    "streams": [{"name": "flatdec", "quick": 2000, "thorough": 60000}],
     "extra": flat_sites.extra,
     "rule": "a case loads a byte string (all strings of length <= 1 in quick / <= 2 in thorough exhaustively, runs of 0xff/0x80, "
             "truncated or bit-flipped valid encodings, damaged block lists, UTF-8 edge material, random <= 64 bytes) and calls public "
